@@ -493,6 +493,8 @@ class Messenger(Connection):
         # Set after SESS_INIT negotiation
         self._sess_parameters = {}
         self._in_sess = False
+        # Set when the SESS_INIT of the peer was not acceptable
+        self._sess_refused = False
         self._in_sess_func = None
         # Set after SESS_TERM sent
         self._in_term = False
@@ -772,7 +774,13 @@ class Messenger(Connection):
 
                     self._sessinit_peer = pkt.payload
                     self._in_sess = True
-                    self.merge_session_params()
+                    try:
+                        self.merge_session_params()
+                    except TerminateError:
+                        # the session only exists to be terminated,
+                        # not for any transfer of the peer
+                        self._sess_refused = True
+                        raise
                     self._update_state('established')
                     self._logger.info('Session established with %s', self._sess_parameters['peer_nodeid'])
                     if self._in_sess_func:
@@ -1071,6 +1079,7 @@ class Messenger(Connection):
         self._sessinit_peer = None
         self._sessinit_this = None
         self._in_sess = False
+        self._sess_refused = False
         self._in_term = False
         self._term_recv = False
 
@@ -1102,7 +1111,7 @@ class Messenger(Connection):
         :type ext_items: array
         '''
         self._logger.debug('XFER_DATA %d %s', transfer_id, flags)
-        if not self._in_sess:
+        if not self._in_sess or self._sess_refused:
             raise RejectError(messages.RejectMsg.Reason.UNEXPECTED)
 
     def recv_xfer_ack(self, transfer_id, flags, length):
